@@ -6,5 +6,5 @@
 (* both real builders).                                                                      *)
 EXTENDS BuilderMC, Json
 View == <<stack, tops, last>>
-Emit == PrintT(<<"SEQ", ToJson([h |-> [i \in 1..Len(hist) |-> hist[i].c], depth |-> Len(stack), ntops |-> Len(tops)])>>)
+Emit == PrintT(<<"SEQ", ToJson([h |-> [i \in 1..Len(hist) |-> hist[i].c], key |-> ToString(View)])>>)
 =============================================================================
